@@ -19,6 +19,7 @@ var _ = selector.Specificity{}
 //@   ensures origin == "author" && !importance ==> result == 3
 //@   ensures origin == "author" && importance ==> result == 4
 //@   ensures origin == "user" && importance ==> result == 5
+//@   ensures origin != "user agent" && origin != "user" && origin != "author" ==> result == 5
 //@   ensures result >= 1
 
 //@ func (weight).isNone
@@ -31,12 +32,13 @@ func vLexLE(a, b weight) bool {
 	if a.precedence != b.precedence {
 		return a.precedence < b.precedence
 	}
-	for i := 0; i < 3; i++ {
-		if a.specificity[i] != b.specificity[i] {
-			return a.specificity[i] < b.specificity[i]
-		}
+	if a.specificity[0] != b.specificity[0] {
+		return a.specificity[0] < b.specificity[0]
 	}
-	return true
+	if a.specificity[1] != b.specificity[1] {
+		return a.specificity[1] < b.specificity[1]
+	}
+	return a.specificity[2] <= b.specificity[2]
 }
 
 // Less is the non-strict order "w loses to or ties with other": on a tie the later
@@ -64,3 +66,25 @@ func vLexLE(a, b weight) bool {
 //@   modifies anything
 //@   call append#1 assert forallI(a, b, c, a >= 0 && b >= 0 && c >= 0 ==> a < specificity[0] || (a == specificity[0] && (b < specificity[1] || (b == specificity[1] && c < specificity[2]))))
 //@   call append#2 assert specificity[0] == 0 && specificity[1] == 0 && specificity[2] == 0
+
+// A media query list matches when one of its media types is `all` or the device's.
+//@ func evaluateMediaQuery
+//@   props C03
+//@   nopanic
+//@   ensures result == exists(i, 0, len(queryList), queryList[i] == "all" || queryList[i] == deviceMediaType)
+//@   loop 1 invariant forall(i, 0, rangeindex + 1, !(queryList[i] == "all" || queryList[i] == deviceMediaType)) && rangeindex < len(queryList)
+//@   loop 1 decreases len(queryList) - rangeindex
+
+// The cascade keeps, per property, the declaration of greatest weight, later declarations
+// winning ties: a stored value is replaced exactly when the slot is empty or the new
+// weight is >= the old one (lexicographic on (precedence, specificity)), and the weight
+// recorded is the one CSS assigns: (origin/importance precedence, specificity).
+//@ func newStyleFor
+//@   props C03
+//@   modifies anything
+//@   call mapupdate#2 assert we.precedence == declarationPrecedence("author", decl.Important) && we.specificity == styleAttr.specificity
+//@   call mapupdate#2 assert oldWeight.isNone() || vLexLE(oldWeight, we)
+//@   call mapupdate#2 assert arg2.weight == we && arg1 == decl.Name
+//@   call mapupdate#4 assert we.precedence == declarationPrecedence(sh.origin, decl.Important) && we.specificity == specificity
+//@   call mapupdate#4 assert oldWeight.isNone() || vLexLE(oldWeight, we)
+//@   call mapupdate#4 assert arg2.weight == we && arg1 == decl.Name
